@@ -4,7 +4,7 @@
    (no name qualification by libcst); every theorem is for ALL overwrite flags, stubs and sources with
    [apply ow stub src = Some out]. *)
 From Coq Require Import List Bool String.
-From MT Require Import Apply ApplyFacts ApplyExamples.
+From MT Require Import Apply ApplyFacts ApplyExamples ApplyIdemBase ApplyIdemImports ApplyIdem.
 Import ListNotations.
 Open Scope list_scope.
 
@@ -66,3 +66,48 @@ Proof. vm_compute. reflexivity. Qed.
 Example ex_qc_complete_full :
   completeb (mk_env true qc_stub qc_src) excl_none qc_src (core qc_src qc_out) = true.
 Proof. vm_compute. reflexivity. Qed.
+
+(* ---- additions for Props/C15.v ---- *)
+(* idempotence of the whole of apply (annotation pass, AddImports pass, class insertion), for every overwrite
+   flag, stub and source, outside the class excluded by [idem_side] and wherever the model is defined on the result *)
+Theorem apply_idempotent_partial2 :
+  forall ow stub src out,
+    apply ow stub src = Some out -> in_fragment stub out = true -> idem_side ow stub src = true ->
+    apply ow stub out = Some out.
+Proof. exact apply_idempotent_side. Qed.
+Print Assumptions apply_idempotent_partial2.
+Theorem apply_idempotent_where_defined_partial2 :
+  forall ow stub src out out2,
+    apply ow stub src = Some out -> idem_side ow stub src = true -> apply ow stub out = Some out2 -> out2 = out.
+Proof. exact apply_idempotent_where_defined. Qed.
+Print Assumptions apply_idempotent_where_defined_partial2.
+(* the result stays in the modelled fragment under a condition on the stub alone *)
+Theorem apply_result_in_fragment :
+  forall ow stub src out, apply ow stub src = Some out -> reimport_safe stub = true -> in_fragment stub out = true.
+Proof. exact apply_stays_in_fragment. Qed.
+Print Assumptions apply_result_in_fragment.
+Theorem apply_idempotent_partial2_closed :
+  forall ow stub src out,
+    apply ow stub src = Some out -> reimport_safe stub = true -> idem_side ow stub src = true ->
+    apply ow stub out = Some out.
+Proof. exact apply_idempotent_safe. Qed.
+Print Assumptions apply_idempotent_partial2_closed.
+(* the AddImports pass alone is idempotent on every module and every request list *)
+Theorem add_imports_idempotent :
+  forall needs ss, add_imports needs (add_imports needs ss) = add_imports needs ss.
+Proof. exact add_imports_idem. Qed.
+Print Assumptions add_imports_idempotent.
+Example ex_idem_hyps_b13 :
+  apply false b13_stub b13_src = Some b13_out /\ reimport_safe b13_stub = true
+  /\ idem_side false b13_stub b13_src = true /\ (if stmts_eq_dec b13_out b13_src then true else false) = false.
+Proof. exact ex_idem_b13. Qed.
+Example ex_idem_hyps_qc :
+  apply true qc_stub qc_src = Some qc_out /\ reimport_safe qc_stub = true /\ idem_side true qc_stub qc_src = true
+  /\ fresh_classes (stub_symbols qc_stub) qc_stub qc_src <> [] /\ cands (mk_env true qc_stub qc_src) <> [].
+Proof. exact ex_idem_qc. Qed.
+
+Theorem apply_idempotent_plain_partial2 :
+  forall stub src out out2,
+    apply false stub src = Some out -> fresh_plain stub src = true -> apply false stub out = Some out2 -> out2 = out.
+Proof. exact apply_idempotent_plain. Qed.
+Print Assumptions apply_idempotent_plain_partial2.
